@@ -1528,7 +1528,7 @@ func (e *env) shrinkWindow(sc shrinkCase) {
 // ---------------------------------------------------------------------------------------------
 
 func runC08(r *hx.Result, cfg hx.Config) {
-	r.Rule = "one case = one schedule (programs of 1-3 connections [+ the background flusher], a list of thread ids) replayed step by step on the verif-tagged server and on the extracted model; non-trivial = distinct schedule in which steps of different threads alternate and at least one write command is acknowledged"
+	r.Rule = "one case = one schedule (programs of 1-3 connections [+ the background flusher], a list of thread ids) replayed step by step on the verif-tagged server and on the extracted model; non-trivial = distinct schedule in which steps of different threads alternate and at least one write command is acknowledged; sweep (sweep.go): one case = one command of a history run on the plain server with a dump and the append-only file read before and after it, non-trivial = distinct command whose acknowledgement came with a changed dataset"
 	r.Assumptions = []string{
 		"sync.RWMutex / atomic.Bool behave as a mutual-exclusion lock / a sequentially consistent flag (Go memory model)",
 		"a successful write(2) on the append-only file is visible to later reads of the file and survives SIGKILL of the process (kernel page cache); power loss / fsync are outside C08",
@@ -1567,16 +1567,23 @@ func runC08(r *hx.Result, cfg hx.Config) {
 		run(sc)
 	}
 	nRandom, nWindow, nFlusher, nKill := 200, 60, 12, 8
+	nSweep, nSweepKill := 6, 3
 	budget := 50 * time.Second
 	if cfg.Tier == "thorough" {
 		nRandom, nWindow, nFlusher, nKill = 6000, 1500, 120, 150
+		nSweep, nSweepKill = 150, 4
 		budget = 14 * time.Minute
 	}
 	if cfg.Search {
 		nRandom, nWindow, nFlusher, nKill = 3000, 1000, 20, 60
+		nSweep, nSweepKill = 60, 4
 		budget = 5 * time.Minute
 	}
 	within := func() bool { return time.Since(t0) < budget && e.nfail < 12 }
+	// every data-modifying command and variant is handed to the log at all (sweep.go); own random
+	// stream, so the schedules below are the same as without it
+	e.stopServer()
+	e.sweepAll(rand.New(rand.NewSource(cfg.Seed^0x5eed08)), nSweep, nSweepKill, within)
 	for i := 0; i < nWindow && within(); i++ {
 		if i%3 == 2 {
 			run(liveWindowScenario(rng))
